@@ -1734,6 +1734,10 @@ impl Db {
 
 	/// Add a new column with options specified by `new_column_options`.
 	pub fn add_column(options: &mut Options, new_column_options: ColumnOptions) -> Result<()> {
+		// `Db::open` asserts that the options are valid.
+		if !new_column_options.is_valid() {
+			return Err(Error::InvalidConfiguration("Invalid column options".to_string()))
+		}
 		let (salt, version) = Self::precheck_column_operation(options)?;
 
 		options.columns.push(new_column_options);
@@ -1765,6 +1769,10 @@ impl Db {
 		index: u8,
 		new_options: Option<ColumnOptions>,
 	) -> Result<()> {
+		// `Db::open` asserts that the options are valid.
+		if new_options.as_ref().map_or(false, |o| !o.is_valid()) {
+			return Err(Error::InvalidConfiguration("Invalid column options".to_string()))
+		}
 		let (salt, version) = Self::precheck_column_operation(options)?;
 		Self::remove_column_files(options, index)?;
 
